@@ -8,10 +8,10 @@ import (
 // C19 alphabet: how a goroutine is launched x how (if at all) the launched function recovers.
 var GoForms = []string{"named", "closure", "methodV", "methodP", "boundMV", "fvar", "ffield", "iface", "namedTwice", "nestedClosure"}
 var RecForms = []string{"none", "deferClosure", "deferNamed", "deferMethod", "deferIndirect", "recoverNotDeferred", "deferOneBranch",
-	"deferClosureVar", "deferNested"}
+	"deferClosureVar", "deferNested", "deferRecoverDirect"}
 
 // recExpect: must the entry function be reported? (it does not itself defer a function that calls recover)
-var recMustReport = map[string]bool{"none": true, "deferIndirect": true, "recoverNotDeferred": true, "deferNested": true}
+var recMustReport = map[string]bool{"none": true, "deferIndirect": true, "recoverNotDeferred": true, "deferNested": true, "deferRecoverDirect": true}
 
 func recStmts(rec string) string {
 	switch rec {
@@ -31,6 +31,9 @@ func recStmts(rec string) string {
 		return "\tif rt.Cond() {\n\t\tdefer func() { recover() }()\n\t}\n"
 	case "deferClosureVar":
 		return "\trc := func() { recover() }\n\tdefer rc()\n"
+	case "deferRecoverDirect":
+		// recover is the deferred function itself, not called BY a deferred function: it does not stop the panic
+		return "\tdefer recover()\n"
 	case "deferNested":
 		// the deferred closure does not call recover itself; a closure nested in it does (does not recover a panic of the entry)
 		return "\tdefer func() { func() { recover() }() }()\n"
